@@ -209,7 +209,8 @@ def _run_chunk(args):
         # three operations have hung, or a quick-tier run is past five minutes (operations that got very slow)
         return HANGS[0] >= 3 or (os.environ.get("HY_EFFECTIVE_TIER") == "quick" and time.time() - T_START > 300)
     while rest:
-        out, how = _run_once(exe, rest, min(timeout, 30) if hurry() else timeout)
+        # after the first time-out in this chunk the remainder gets two minutes at most (it normally needs seconds)
+        out, how = _run_once(exe, rest, min(timeout, 30) if hurry() else (timeout if restarts == 0 else min(timeout, 120)))
         res += out
         if len(out) >= len(rest): break
         k = len(out)
